@@ -163,6 +163,11 @@ func (p *parser) parseSchemaDefinition(description descriptionWithComment) *Sche
 	def.AfterDescriptionComment = comment
 	def.Directives = p.parseDirectives(true)
 
+	// a schema definition (unlike a schema extension) must list its root operation types
+	if p.peek().Kind != lexer.BraceL {
+		p.unexpectedError()
+		return &def
+	}
 	def.EndOfDefinitionComment = p.some(lexer.BraceL, lexer.BraceR, func() {
 		def.OperationTypes = append(def.OperationTypes, p.parseOperationTypeDefinition())
 	})
